@@ -133,6 +133,16 @@ def sharing_violations(g, Expr, names):
     return bad
 
 
+class _UpcastNumpy:
+    """A numpy-like namespace (legal value of as_function's `numpy=` parameter) in which the single precision
+    types are the double precision ones."""
+
+    def __getattr__(self, name):
+        import numpy
+
+        return {"float32": numpy.float64, "complex64": numpy.complex128}.get(name, getattr(numpy, name))
+
+
 class Oracle:
     def __init__(self, case, Expr, fa):
         self.case = case
@@ -143,6 +153,7 @@ class Oracle:
         self.probes = {}
         self.is_baseline = False
         self.baseline = {}
+        self.loaded = []
         self.cpp_items = []
         self.states = set()
         self.nsamples = case.get("nsamples", 40)
@@ -325,6 +336,8 @@ class Oracle:
                 if I.canon_result(got) != I.canon_result(exp):
                     self.violation("value", "python|value", rec, args=repr(args), got=repr(got), expected=repr(exp))
                     return
+        if ":as=" not in rec["key"]:
+            self.load_through_package(rec, g, "python")
 
     # ---- numpy
     def check_numpy(self, rec, text, g):
@@ -371,6 +384,59 @@ class Oracle:
                 self.violation("value", "numpy|value", rec, args=repr(args), got=repr(got), expected=repr(exp),
                                got_dtype=str(getattr(got, "dtype", type(got))), expected_dtype=str(getattr(exp, "dtype", type(exp))))
                 return
+        if ":as=" not in rec["key"] and not any(p.kind == "list" for p in params):
+            self.load_through_package(rec, g, "numpy")
+
+    # ---- the package's own loader, and functions that stay loaded while the history goes on
+    def load_through_package(self, rec, g, target):
+        """targets.<t>.as_function is how users (and the package's tests) turn a graph into a callable; functions
+        loaded earlier must keep computing their graph whatever is loaded afterwards -- also when a later load
+        passes another numpy-like namespace through the documented `numpy=` parameter."""
+        fa = self.fa
+        if self.is_baseline or self.rng.random() > 0.4 or (rec.get("params_pseudo") or False):
+            return
+        try:
+            if target == "numpy":
+                f = fa.targets.numpy.as_function(g, debug=min(rec["debug"], 1))
+                if self.rng.random() < 0.5:
+                    fa.targets.numpy.as_function(g, debug=0, numpy=_UpcastNumpy())  # discarded: only its side effects matter
+                    self.bump(self.probes, "loaded_with_another_numpy_namespace")
+            else:
+                f = fa.targets.python.as_function(g)
+        except Exception as e:
+            self.bump(self.stats, "package_loader_failed:" + type(e).__name__)
+            return
+        self.loaded.append((f, g, rec, target))
+        self.loaded = self.loaded[-6:]
+        self.bump(self.stats, "loaded_through_package_loader")
+        self.recheck_loaded()
+
+    def recheck_loaded(self):
+        for f, g, rec, target in self.loaded:
+            it = I.NpInterp(self.Expr) if target == "numpy" else I.PyInterp(self.Expr)
+            body, params = g.operands[-1], g.operands[1:-1]
+            for _ in range(4):
+                try:
+                    args = self.sample_args(params)
+                    it.bind(g, args)
+                    if target == "numpy":
+                        exp = it.evaluate(body)
+                        with warnings.catch_warnings():
+                            warnings.simplefilter("ignore")
+                            got = f(*[it.env[id(p)] for p in params])
+                    else:
+                        exp = it.lazy(body, None)
+                        got = f(*args)
+                except (I.Tainted, I.Uninterpretable) + I.PyInterp.ERRORS:
+                    continue
+                except Exception as e:
+                    self.violation("execute", "%s|loaded-function-exception:%s" % (target, type(e).__name__), rec, error=str(e)[:200])
+                    break
+                self.bump(self.stats, "samples:reloaded")
+                if I.canon_result(got) != I.canon_result(exp):
+                    self.violation("value", target + "|loaded-function-changed-behaviour", rec, args=repr(args), got=repr(got),
+                                   expected=repr(exp), got_dtype=str(getattr(got, "dtype", type(got))))
+                    break
 
     # ---- name sharing (clause 4)
     def check_sharing(self, rec, g, target, names):
